@@ -53,7 +53,14 @@ def guarded(fn):
     signal.setitimer(signal.ITIMER_PROF, CALL_TIMEOUT)
     signal.alarm(CALL_TIMEOUT * 20)
     try:
-        return {'st': 'ok', 'r': fn()}
+        try:
+            r = fn()
+        finally:
+            # timers off before anything else happens: a timer that fires while an exception of the call is being
+            # classified would escape from this function
+            signal.setitimer(signal.ITIMER_PROF, 0)
+            signal.alarm(0)
+        return {'st': 'ok', 'r': r}
     except CallTimeout:
         tb = sys.exc_info()[2]
         return {'st': 'timeout', 'site': innermost_site(tb)}
